@@ -1,5 +1,5 @@
 (* C07 - DLQ window: property theorems only. *)
-From Verif Require Import Dlq.Window Dlq.WindowProofs Dlq.Routing Dlq.RoutingProofs.
+From Verif Require Import Dlq.Window Dlq.WindowProofs Dlq.WindowRle Dlq.WindowRleProofs Dlq.Routing Dlq.RoutingProofs.
 
 Theorem C07_window_v1_refines_spec : forall size t ops,
   run_v1 (new_win size t) ops = run_spec size t init_sp ops.
@@ -15,6 +15,41 @@ Theorem C07_window_parity : forall size t chunks,
   run_v2 (new_win size t) chunks = run_v1 (new_win size t) (expand chunks).
 Proof. exact window_parity. Qed.
 Print Assumptions C07_window_parity.
+
+(* the same rule at any scale: the run-length-encoded timestamp-queue form (all numbers in N,
+   O(1) per run of acknowledgments, amortised O(1) per rejection) takes exactly the decisions of
+   the sliding-window rule, for every window size, threshold and run-length-encoded history;
+   it is what the large-window correspondence cases evaluate *)
+Theorem C07_window_rle_refines_spec : forall (size t : N) (runs : list (bool * N)),
+  expandN (run_rle size t q0 runs) = run_spec (N.to_nat size) (N.to_nat t) init_sp (expandN runs).
+Proof. exact window_rle_refines_spec. Qed.
+Print Assumptions C07_window_rle_refines_spec.
+
+Theorem C07_window_rle_is_v1 : forall (size t : N) (runs : list (bool * N)),
+  run_v1 (new_win (N.to_nat size) (N.to_nat t)) (expandN runs) = expandN (run_rle size t q0 runs).
+Proof. exact window_rle_is_v1. Qed.
+Print Assumptions C07_window_rle_is_v1.
+
+Theorem C07_window_rle_is_v2 : forall (size t : N) (chunks : list (bool * N)),
+  run_v2 (new_win (N.to_nat size) (N.to_nat t)) (chunks_nat chunks) = expandN (run_rle size t q0 chunks).
+Proof. exact window_rle_is_v2. Qed.
+Print Assumptions C07_window_rle_is_v2.
+
+(* the comparison of run-length encodings used by the checker only says "same" for encodings
+   of the same list of decisions *)
+Theorem C07_rle_same_sound : forall l1 l2, rle_same l1 l2 = true -> expandN l1 = expandN l2.
+Proof. exact rle_same_sound. Qed.
+Print Assumptions C07_rle_same_sound.
+
+(* non-vacuity at scale: window 100000, threshold 3: three rejections, 70000 acknowledgments,
+   and the fourth rejection is refused (the first three are still inside the window); after
+   99998 acknowledgments instead it is tolerated (two have left the window) *)
+Example C07_rle_nonvacuous :
+  rle_norm (run_rle 100000 3 q0 [(true, 3); (false, 70000); (true, 1)]%N)
+  = [(true, 70003); (false, 1)]%N
+  /\ rle_norm (run_rle 100000 3 q0 [(true, 3); (false, 99998); (true, 2)]%N)
+  = [(true, 100003)]%N.
+Proof. vm_compute. split; reflexivity. Qed.
 
 Theorem C07_size0_unlimited : forall t ops, run_spec 0 t init_sp ops = map (fun _ => true) ops.
 Proof. exact size0_unlimited. Qed.
